@@ -57,6 +57,24 @@ class F:
                 self.strs += [n.prefix] + [f.suffix for f in n.interpolations]
         self.bytes = [n.value for n in self.nodes if isinstance(n, qlast.BytesConstant)]
         self.ql = qlast
+        self.diffnode = self._node_at_diff()
+
+    def _node_at_diff(self):
+        """the node owning the field named by the ast-difference path (best effort)"""
+        m = re.match(r'\s*((?:\[\d+\]|\.\w+)+):', self.diff)
+        if not m or not isinstance(self.tree, self.ql.Base):
+            return None
+        toks = re.findall(r'\[(\d+)\]|\.(\w+)', m.group(1))
+        cur = self.tree
+        if self.entry == 'block' and toks and toks[0][0] != '':
+            toks = toks[1:]              # leading [i] = index of the statement in the block
+        toks = toks[:-1]                 # the last component is the differing field itself
+        try:
+            for idx, name in toks:
+                cur = cur[int(idx)] if idx != '' else getattr(cur, name)
+        except Exception:
+            return None
+        return cur if isinstance(cur, self.ql.Base) else None
 
     def has(self, *names):
         return any(type(n).__name__ in names for n in self.nodes)
@@ -102,7 +120,7 @@ RULES = [
      and any(isinstance(n, f.ql.Shape) and not n.elements for n in f.nodes)),
     # ---- literals ---------------------------------------------------------------------------
     ('param-backquoted-name-requoted',
-     lambda f: f.st == 'ast-diff' and re.search(r"\.name: '`", f.diff) and f.has('Parameter')),
+     lambda f: f.st == 'ast-diff' and re.search(r"\.name: ['\"]`", f.diff) and f.has('Parameter')),
     ('bytes-backslash-not-escaped',
      lambda f: f.st in ('ast-diff', 'reparse-fail') and any(b'\\' in v for v in f.bytes)
      and (f.st == 'ast-diff' and '#bytes' in f.diff or f.st == 'reparse-fail')),
@@ -120,6 +138,16 @@ RULES = [
     ('ddl-code-dollar-quote-trailing-dollar',
      lambda f: f.st in ('reparse-fail', 'ast-diff') and any(v.endswith('$') for v in _code_strings(f))),
     # ---- unquoted names -----------------------------------------------------------------------
+    ('name-unquoted-partial-reserved-keyword',
+     lambda f: f.st == 'reparse-fail' and any(
+         part.lower() in ('union', 'except', 'intersect')
+         for n in f.nodes for a in ('name', 'module', 'alias', 'func', 'iterator_alias', 'grouping_alias', 'group_alias',
+                                    'subject_alias', 'result_alias')
+         for v in [getattr(n, a, None)] if isinstance(v, (str, tuple))
+         for vv in (v if isinstance(v, tuple) else (v,)) if isinstance(vv, str) for part in vv.split('::'))),
+    ('ddl-reset-field-name-keeps-backquotes',
+     lambda f: f.st == 'ast-diff' and re.search(r"\.name: ['\"]`", f.diff)
+     and isinstance(f.diffnode, f.ql.SetField) and f.diffnode.value is None),
     ('name-unquoted-savepoint',
      lambda f: f.st in ('reparse-fail', 'ast-diff') and f.has('DeclareSavepoint', 'ReleaseSavepoint', 'RollbackToSavepoint')),
     ('name-unquoted-reset-alias', lambda f: f.st == 'reparse-fail' and f.has('SessionResetAliasDecl')),
@@ -132,11 +160,11 @@ RULES = [
      lambda f: f.st in ('reparse-fail', 'ast-diff') and any(
          isinstance(n, f.ql.SetField) and not n.special_syntax
          and (not re.fullmatch(r'[^\W\d]\w*', n.name) or _is_reserved(n.name)) for n in f.nodes)),
+    # visit_Ptr prints purely numeric names bare (allow_num=True) wherever the Ptr stands; the grammar takes a
+    # number only after `Expr .` (tuple element access): not in shapes, `@n`, partial paths `.n`, named tuples
     ('name-unquoted-numeric-pointer',
-     lambda f: f.st == 'reparse-fail' and any(
-         isinstance(n, f.ql.ShapeElement) and any(isinstance(s_, f.ql.Ptr) and s_.name.isdigit() for s_ in n.expr.steps)
-         or isinstance(n, f.ql.TupleElement) and n.name.name.isdigit()
-         for n in f.nodes)),
+     lambda f: f.st == 'reparse-fail' and re.search(r"Unexpected '\d+'|Unexpected ':='", f.err) and any(
+         isinstance(n, f.ql.Ptr) and n.name.isdigit() for n in f.nodes)),
     ('ddl-code-string-python-repr',
      lambda f: f.st == 'reparse-fail' and 'invalid escape sequence' in f.err and any(
          any(not c.isprintable() or 0x80 <= ord(c) <= 0x9f for part in ([x] if isinstance(x, str) else list(x))
@@ -165,16 +193,15 @@ RULES = [
      lambda f: f.st == 'ast-diff' and f.has('CreateCast') and 'code.code' in f.diff),
     ('ddl-migration-onto-initial-parent',
      lambda f: f.st == 'ast-diff' and f.has('CreateMigration') and re.search(r'\.parent: None != ', f.diff)),
-    # only the UNTYPED `x { using (e) }` -> `x := (e)` normalisation; a typed one losing its block is a regression
+    # only the UNTYPED `x { using (e) }` -> `x := (e)` normalisation; a typed one losing its block is a regression.
+    # Decided on the node the difference points at.
     ('ddl-computable-using-block-normalised',
      lambda f: f.st == 'ast-diff' and re.search(r'commands: length 1 != 0', f.diff)
-     and any(type(n).__name__ in ('CreateGlobal', 'CreateConcreteProperty', 'CreateConcreteLink',
-                                  'CreateConcreteUnknownPointer', 'CreateAlias')
-             and len(n.commands) == 1 and isinstance(n.commands[0], f.ql.SetField) and n.commands[0].name == 'expr'
-             and not isinstance(getattr(n, 'target', None), f.ql.TypeExpr) for n in f.nodes)
-     and not any(type(n).__name__ in ('CreateGlobal', 'CreateConcreteProperty', 'CreateConcreteLink',
-                                      'CreateConcreteUnknownPointer')
-                 and len(n.commands) == 1 and isinstance(getattr(n, 'target', None), f.ql.TypeExpr) for n in f.nodes)),
+     and type(f.diffnode).__name__ in ('CreateGlobal', 'CreateConcreteProperty', 'CreateConcreteLink',
+                                       'CreateConcreteUnknownPointer', 'CreateAlias')
+     and len(f.diffnode.commands) == 1 and isinstance(f.diffnode.commands[0], f.ql.SetField)
+     and f.diffnode.commands[0].name == 'expr'
+     and not isinstance(getattr(f.diffnode, 'target', None), f.ql.TypeExpr)),
     ('ddl-operator-two-using-clauses-garbled',
      lambda f: f.has('CreateOperator') and f.st in ('reparse-fail', 'ast-diff')
      and len(re.findall(r'(?i)using sql', f.p1)) >= 2),
@@ -213,7 +240,7 @@ RULES = [
                'DropConcreteConstraint', 'DropConcreteIndex')),
     ('nested-body-text-reindents-multiline-literals',
      lambda f: f.st == 'ast-diff' and f.has('CreateMigration', 'CreateExtensionPackage', 'CreateExtensionPackageMigration')
-     and re.search(r'body\.commands', f.diff) and re.search(r"(value|name): '", f.diff)),
+     and re.search(r'commands\[\d+\]', f.diff) and re.search(r"(value|name): ['\"]", f.diff)),
     ('name-unquoted-fuses-with-keyword',
      lambda f: f.st == 'reparse-fail' and any(
          isinstance(n, (f.ql.CreateExtension, f.ql.AlterExtension, f.ql.DropExtension)) and n.name.name.lower() == 'package'
@@ -223,13 +250,6 @@ RULES = [
     ('ddl-statement-argument-unparenthesised',
      lambda f: f.st == 'reparse-fail' and re.search(r"Unexpected keyword '(FOR|GROUP|SELECT|INSERT|UPDATE|DELETE|WITH)'", f.err)
      and any(isinstance(n, f.ql.DDL) for n in f.nodes) and any(isinstance(n, f.ql.Query) for n in f.nodes)),
-    ('name-unquoted-partial-reserved-keyword',
-     lambda f: f.st == 'reparse-fail' and any(
-         part.lower() in ('union', 'except', 'intersect')
-         for n in f.nodes for a in ('name', 'module', 'alias', 'func', 'iterator_alias', 'grouping_alias', 'group_alias',
-                                    'subject_alias', 'result_alias')
-         for v in [getattr(n, a, None)] if isinstance(v, (str, tuple))
-         for vv in (v if isinstance(v, tuple) else (v,)) if isinstance(vv, str) for part in vv.split('::'))),
     ('nested-body-text-not-idempotent',
      lambda f: f.st == 'text-diff' and f.has('CreateMigration', 'CreateExtensionPackage', 'CreateExtensionPackageMigration')),
 ]
